@@ -420,6 +420,51 @@ func c19ManualAnswers(c *h.Ctx) {
 			return
 		}
 	}
+	// (3) marked idle, then resumed: a running player again - every request gets its full thinking time, however many
+	// requests in a row time out
+	{
+		pr := actor.NewPlayerRunner("me")
+		sp := &spyAdapter{noForward: true, name: "me", idx: 0}
+		a := actor.NewActor()
+		a.SetAdapter(sp)
+		a.SetRunner(pr)
+		pr.Idle()
+		pr.Resume()
+		for k := 0; k < 3; k++ {
+			t := mk(fmt.Sprintf("hand-%d", k+1), int64(1000*(k+1)), "RoundStarted", []string{"check", "fold", "allin"})
+			sp.gs = t.State.GameState
+			asked := h.Mono()
+			a.UpdateTableState(t)
+			time.Sleep(1300 * time.Millisecond)
+			if !judge(fmt.Sprintf("idle, resumed, request %d left unanswered", k+1), sp.snapshotCalls(), asked, "check") {
+				return
+			}
+		}
+	}
+	// (4) the actor is moved to another table (a second adapter): automatic actions go to the table that asks
+	{
+		pr := actor.NewPlayerRunner("me")
+		sp1 := &spyAdapter{noForward: true, name: "table-1", idx: 0}
+		sp2 := &spyAdapter{noForward: true, name: "table-2", idx: 0}
+		a := actor.NewActor()
+		a.SetAdapter(sp1)
+		a.SetRunner(pr)
+		pr.Suspend()
+		t1 := mk("t1-hand", 1000, "RoundStarted", []string{"check", "fold"})
+		sp1.gs = t1.State.GameState
+		a.UpdateTableState(t1)
+		time.Sleep(20 * time.Millisecond)
+		a.SetAdapter(sp2)
+		t2 := mk("t2-hand", 2000, "RoundStarted", []string{"check", "fold"})
+		sp2.gs = t2.State.GameState
+		n1 := len(sp1.snapshotCalls())
+		a.UpdateTableState(t2)
+		time.Sleep(50 * time.Millisecond)
+		if got1, got2 := len(sp1.snapshotCalls())-n1, len(sp2.snapshotCalls()); got2 != 1 || got1 != 0 {
+			c.Violate("C19/no-automatic-action/sent-to-another-table", fmt.Sprintf("the (suspended) player was moved to a second table and asked there: the asking table received %d automatic actions, the table he had left %d", got2, got1), map[string]interface{}{"table-1": sp1.snapshotCalls(), "table-2": sp2.snapshotCalls()})
+			return
+		}
+	}
 	c.Feature("manual-answers-then-silence")
 	c.Nontrivial()
 	c.FP("manual", c.Seed)
